@@ -3,10 +3,10 @@
    findVertexPredecessors (distances = hop minima over ALL walks, sentinel iff unreachable, the predecessor is an in-neighbour one hop closer),
    findGeodesics (a walk along existing edges with exactly that many hops, [source], or empty), findAllVertexPredecessors (same distances; the
    predecessor list of v is duplicate-free and is exactly the set of in-neighbours one hop closer) and findAllGeodesics (exactly the
-   minimum-length walks, none twice).  PARTIAL: the two ...FromVertex variants (loops over all destinations around the proved functions) are
-   tied to the implementation and to the brute-force spec by the correspondence check only. *)
+   minimum-length walks, none twice).  The two ...FromVertex variants give, for every destination, what the
+   single-destination functions give (FromVertexProofs.v). *)
 From Coq Require Import List Arith Lia.
-From BG Require Import Base Bfs PathsModel PathsProofs BfsAllProofs.
+From BG Require Import Base Bfs PathsModel PathsProofs BfsAllProofs FromVertexProofs.
 Import ListNotations.
 
 Theorem C11_single_predecessor_search : forall (g : adjl) (s : nat), Bfs.wf g -> s < length g ->
@@ -51,3 +51,39 @@ Print Assumptions C11_find_all_geodesics.
 
 Example C11_example : find_geodesics true [[1; 2]; [3]; [3]; [4]; []; [0]] 0 4 = Val [0; 1; 3; 4] /\ find_geodesics true [[1; 2]; [3]; [3]; [4]; []; [0]] 0 5 = Val [].
 Proof. vm_compute. auto. Qed.
+
+(* ---- findGeodesicsFromVertex / findAllGeodesicsFromVertex: one entry per vertex, each what findGeodesics / findAllGeodesics returns for it ---- *)
+Theorem C11_geodesics_from_vertex :
+  forall (g : adjl) (s : nat),
+        Bfs.wf g ->
+        s < length g ->
+        exists ps : list (list nat),
+          geodesics_from_vertex true g s = Val ps /\
+          length ps = length g /\
+          (forall j : nat,
+           j < length g ->
+           find_geodesics true g s j = Val (nth j ps []) /\
+           (j = s -> nth j ps [] = [s]) /\
+           ((forall k : nat, ~ Bfs.walk g s j k) /\ hopdist g s j = None /\ nth j ps [] = [] \/
+            (exists k : nat,
+               Bfs.walk g s j k /\
+               (forall k' : nat, Bfs.walk g s j k' -> k <= k') /\
+               hopdist g s j = Some k /\
+               length (nth j ps []) = S k /\ hd (S (length g)) (nth j ps []) = s /\ last (nth j ps []) (S (length g)) = j /\ is_walk g (nth j ps []) = true))).
+Proof. exact FromVertexProofs.geodesics_from_vertex_spec. Qed.
+Print Assumptions C11_geodesics_from_vertex.
+Theorem C11_all_geodesics_from_vertex :
+  forall (g : adjl) (s : nat),
+        Bfs.wf g ->
+        s < length g ->
+        forall fuel : nat,
+        (forall j : nat, j < length g -> length g * length (shortest_paths g s j) <= fuel) ->
+        exists pss : list (list (list nat)),
+          all_geodesics_from_vertex true true fuel g s = Val pss /\
+          length pss = length g /\
+          (forall j : nat,
+           j < length g ->
+           find_all_geodesics true true fuel g s j = Val (nth j pss []) /\
+           NoDup (nth j pss []) /\ (forall p : list nat, In p (nth j pss []) <-> In p (shortest_paths g s j))).
+Proof. exact FromVertexProofs.all_geodesics_from_vertex_spec. Qed.
+Print Assumptions C11_all_geodesics_from_vertex.
